@@ -670,6 +670,20 @@ func (g *Graph) expandFact(f Fact) []Fact {
 	outcome := ""
 	switch x := e.(type) {
 	case *ast.Ident:
+		// a boolean local that is result #k of a helper call: the facts under which
+		// the helper returns that value at position k
+		if td, ok := pat.TupleDefOf(g.Info, x); ok {
+			if t := g.Info.TypeOf(x); t != nil {
+				if b, ok := t.Underlying().(*types.Basic); ok && b.Info()&types.IsBoolean != 0 {
+					out := "false"
+					if f.Val {
+						out = "true"
+					}
+					return g.callFacts(td.Call, td.Index, out)
+				}
+			}
+			return nil
+		}
 		// a boolean local assigned once stands for its definition
 		if d := pat.DefOf(g.Info, x); d != nil {
 			if t := g.Info.TypeOf(x); t != nil {
@@ -725,6 +739,13 @@ func (g *Graph) expandFact(f Fact) []Fact {
 	default:
 		return nil
 	}
+	return g.callFacts(call, -1, outcome)
+}
+
+// callFacts: the facts (in the caller's vocabulary) that hold whenever the
+// same-package helper called by `call` produces `outcome` at result idx
+// (-1 = the last result).
+func (g *Graph) callFacts(call *ast.CallExpr, idx int, outcome string) []Fact {
 	callee := core.CalleeFunc(g.Info, call)
 	if callee == nil || callee.Pkg() == nil {
 		return nil
@@ -733,7 +754,7 @@ func (g *Graph) expandFact(f Fact) []Fact {
 	if fn == nil || fn.Decl.Body == nil || fn.Pkg.TypesInfo != g.Info {
 		return nil // same package only (shared type information)
 	}
-	facts := helperFacts(g.Prog, fn, outcome)
+	facts := helperFacts(g.Prog, fn, idx, outcome)
 	if len(facts) == 0 {
 		return nil
 	}
@@ -763,8 +784,8 @@ func (g *Graph) expandFact(f Fact) []Fact {
 // helperFacts returns the atomic facts (over the helper's own parameters) that
 // hold on every path on which the loop-free helper fn produces outcome
 // ("true"/"false" for a bool result, "nil" for a nil error result).
-func helperFacts(p *core.Program, fn *core.Fn, outcome string) []Fact {
-	key := fmt.Sprintf("cfgq.hf.%p.%s", fn.Decl, outcome)
+func helperFacts(p *core.Program, fn *core.Fn, idx int, outcome string) []Fact {
+	key := fmt.Sprintf("cfgq.hf.%p.%d.%s", fn.Decl, idx, outcome)
 	if v, ok := p.Shared[key]; ok {
 		return v.([]Fact)
 	}
@@ -798,7 +819,14 @@ func helperFacts(p *core.Program, fn *core.Fn, outcome string) []Fact {
 			if !ok || len(ret.Results) == 0 {
 				return
 			}
-			last := ast.Unparen(ret.Results[len(ret.Results)-1])
+			k := idx
+			if k < 0 {
+				k = len(ret.Results) - 1
+			}
+			if k >= len(ret.Results) {
+				return
+			}
+			last := ast.Unparen(ret.Results[k])
 			facts := append([]Fact{}, acc...)
 			switch outcome {
 			case "true", "false":
